@@ -17,8 +17,13 @@
 //!      model line is `skip`); a weight token `-0` is the float -0.0; threads token: `<n>` = inside pool.install,
 //!      `g` = global pool, `<n>j` = inside a rayon::join task, `<n>s` = inside a scope spawn
 //!      `many best|first <pool> <k> <case>*k`: k calls at once (par_iter().for_each) in one pool
+//!      further weight types (typed-large stream): u16 i16 u8 i8 u128 isize – every primitive
+//!      numeric type meets the trait bounds; totals must fit the type
+//!      `loads <case>`: the shared `coupe::imbalance::compute_parts_load` alone, 1 + max id parts;
+//!      variants `vec` (Vec into_par_iter) `cloned` (par_iter().cloned(), as vn_first calls it)
+//!      `map` (par_iter over (w, index) pairs mapped to w, as vn_best calls it)
 //! out: `ok <returned count> | <ids afterwards>` | `negative` | `lenmismatch` | `panic …` | `hang`
-//!      (`twice`: the two outputs joined by ` ;; `)
+//!      (`twice`: the two outputs joined by ` ;; `); `loads`: `loads <l_0> … <l_{k-1}>`
 
 use crate::common::*;
 use coupe::Partition as _;
@@ -127,7 +132,9 @@ fn ty_spec(ty: &str) -> Option<TySpec<'_>> {
     } else {
         (head, None)
     };
-    if !["i64", "u64", "f64", "i32", "u32", "f32", "usize", "i128", "f64bits"].contains(&base) {
+    if !["i64", "u64", "f64", "i32", "u32", "f32", "usize", "i128", "f64bits", "u16", "i16", "u8", "i8", "u128", "isize"]
+        .contains(&base)
+    {
         return None;
     }
     Some(TySpec { base, scale, variant })
@@ -140,8 +147,8 @@ fn is_float(base: &str) -> bool {
 /// the 64-bit type of the same class (signed / unsigned / float)
 fn base64(base: &str) -> &'static str {
     match base {
-        "i64" | "i32" | "i128" => "i64",
-        "u64" | "u32" | "usize" => "u64",
+        "i64" | "i32" | "i128" | "i16" | "i8" | "isize" => "i64",
+        "u64" | "u32" | "usize" | "u16" | "u8" | "u128" => "u64",
         _ => "f64",
     }
 }
@@ -224,17 +231,48 @@ fn in_contract(algo: &str, c: &Case) -> bool {
             None => false,
         };
     }
-    let abs: i128 = c.ws.iter().map(|w| w.abs()).sum();
-    let nonneg = c.ws.iter().all(|&w| w >= 0);
-    match t.base {
+    fits_type(t.base, &c.ws)
+}
+
+/// The totals fit the weight type (see [in_contract]).
+fn fits_type(base: &str, ws: &[i128]) -> bool {
+    let mut abs: i128 = 0;
+    for w in ws {
+        abs = match abs.checked_add(w.abs()) {
+            Some(a) => a,
+            None => return false,
+        };
+    }
+    let nonneg = ws.iter().all(|&w| w >= 0);
+    match base {
         "i64" => abs <= i64::MAX as i128,
         "u64" | "usize" => nonneg && abs <= u64::MAX as i128,
         "i32" => abs <= i32::MAX as i128,
         "u32" => nonneg && abs <= u32::MAX as i128,
         "i128" => abs < (1i128 << 100),
+        "u128" => nonneg && abs < (1i128 << 100),
+        "isize" => abs <= isize::MAX as i128,
+        "i16" => abs <= i16::MAX as i128,
+        "u16" => nonneg && abs <= u16::MAX as i128,
+        "i8" => abs <= i8::MAX as i128,
+        "u8" => nonneg && abs <= u8::MAX as i128,
         "f32" => abs < (1i128 << 24),
         _ => abs < (1i128 << 53),
     }
+}
+
+const LOADS_VARIANTS: [&str; 3] = ["vec", "cloned", "map"];
+
+/// Contract of the `loads` op: a plain (unscaled, integer-valued) weight type handed over in one
+/// of the three ways the algorithms call `compute_parts_load`, matching lengths, totals that fit.
+fn in_contract_loads(c: &Case) -> bool {
+    let Some(t) = ty_spec(&c.ty) else { return false };
+    t.scale.is_none()
+        && t.base != "f64bits"
+        && LOADS_VARIANTS.contains(&t.variant)
+        && !c.nz.iter().any(|&z| z)
+        && c.ws.len() == c.ids.len()
+        && fits_type(t.base, &c.ws)
 }
 
 fn parse_case<'a>(it: &mut impl Iterator<Item = &'a str>) -> Option<Case> {
@@ -282,6 +320,8 @@ enum Op {
     Twice(String, Case, Case),
     /// k calls at once in one pool of the given size
     Many(String, usize, Vec<Case>),
+    /// `compute_parts_load` alone
+    Loads(Case),
 }
 
 fn parse_op(op: &str) -> Option<Op> {
@@ -311,6 +351,8 @@ fn parse_op(op: &str) -> Option<Op> {
             cases.push(parse_case(&mut it)?);
         }
         Op::Many(algo, pool, cases)
+    } else if first == "loads" {
+        Op::Loads(parse_case(&mut it)?)
     } else {
         if !is_algo(first) {
             return None;
@@ -436,6 +478,12 @@ fn call(best: bool, c: &Case, ids: &mut [usize]) -> Result<usize, coupe::Error> 
         "u32" => call_t(best, v, c.ws.iter().map(|&x| x as u32).collect::<Vec<_>>(), ids),
         "usize" => call_t(best, v, c.ws.iter().map(|&x| x as usize).collect::<Vec<_>>(), ids),
         "i128" => call_t(best, v, c.ws.clone(), ids),
+        "u128" => call_t(best, v, c.ws.iter().map(|&x| x as u128).collect::<Vec<_>>(), ids),
+        "isize" => call_t(best, v, c.ws.iter().map(|&x| x as isize).collect::<Vec<_>>(), ids),
+        "i16" => call_t(best, v, c.ws.iter().map(|&x| x as i16).collect::<Vec<_>>(), ids),
+        "u16" => call_t(best, v, c.ws.iter().map(|&x| x as u16).collect::<Vec<_>>(), ids),
+        "i8" => call_t(best, v, c.ws.iter().map(|&x| x as i8).collect::<Vec<_>>(), ids),
+        "u8" => call_t(best, v, c.ws.iter().map(|&x| x as u8).collect::<Vec<_>>(), ids),
         "f32" => call_t(
             best,
             v,
@@ -530,6 +578,62 @@ fn run_twice(algo: &str, a: &Case, b: &Case) -> Caught<(Res, Res)> {
         let ra = one(&a, &pa, &mut buf);
         let rb = one(&b, &pb, &mut buf);
         (ra, rb)
+    })
+}
+
+/// Conversions of the protocol's integers to and from every weight type.
+trait WtConv: Copy + Send + Sync + coupe::num_traits::Zero + std::ops::AddAssign + 'static {
+    fn from_i(x: i128) -> Self;
+    fn to_i(self) -> i128;
+}
+macro_rules! wt_conv {
+    ($($t:ty),*) => { $(impl WtConv for $t {
+        fn from_i(x: i128) -> Self { x as $t }
+        fn to_i(self) -> i128 { self as i128 }
+    })* };
+}
+wt_conv!(i8, i16, i32, i64, i128, isize, u8, u16, u32, u64, u128, usize, f32, f64);
+
+/// `coupe::imbalance::compute_parts_load` on weights of type `T`, handed over the way `variant` names.
+fn loads_t<T: WtConv>(variant: &str, ws: &[i128], ids: &[usize], k: usize) -> Vec<i128> {
+    use coupe::rayon::iter::{IntoParallelRefIterator, ParallelIterator};
+    let w: Vec<T> = ws.iter().map(|&x| T::from_i(x)).collect();
+    let l: Vec<T> = match variant {
+        // as vn_first calls it
+        "cloned" => coupe::imbalance::compute_parts_load(ids, k, w.par_iter().cloned()),
+        // as vn_best calls it
+        "map" => {
+            let pairs: Vec<(T, usize)> = w.into_iter().zip(0..).collect();
+            coupe::imbalance::compute_parts_load(ids, k, pairs.par_iter().map(|(w, _)| *w))
+        }
+        _ => coupe::imbalance::compute_parts_load(ids, k, w),
+    };
+    l.into_iter().map(|x| x.to_i()).collect()
+}
+
+fn run_loads(c: &Case) -> Caught<Vec<i128>> {
+    let p = pool(c.threads);
+    let cc = c.clone();
+    catch_timeout(60, move || {
+        let t = ty_spec(&cc.ty).expect("type token");
+        let k = 1 + cc.ids.iter().copied().max().unwrap_or(0);
+        let (v, ws, ids) = (t.variant, &cc.ws[..], &cc.ids[..]);
+        p.install(|| match t.base {
+            "i64" => loads_t::<i64>(v, ws, ids, k),
+            "u64" => loads_t::<u64>(v, ws, ids, k),
+            "i32" => loads_t::<i32>(v, ws, ids, k),
+            "u32" => loads_t::<u32>(v, ws, ids, k),
+            "i16" => loads_t::<i16>(v, ws, ids, k),
+            "u16" => loads_t::<u16>(v, ws, ids, k),
+            "i8" => loads_t::<i8>(v, ws, ids, k),
+            "u8" => loads_t::<u8>(v, ws, ids, k),
+            "i128" => loads_t::<i128>(v, ws, ids, k),
+            "u128" => loads_t::<u128>(v, ws, ids, k),
+            "isize" => loads_t::<isize>(v, ws, ids, k),
+            "usize" => loads_t::<usize>(v, ws, ids, k),
+            "f32" => loads_t::<f32>(v, ws, ids, k),
+            _ => loads_t::<f64>(v, ws, ids, k),
+        })
     })
 }
 
@@ -746,6 +850,10 @@ fn count_classes(ctx: &mut Ctx, c: &Case) {
 /// Special cases must give the result of their plain counterpart (run here, fresh).
 fn against_baseline(algo: &str, c: &Case, out: &str) -> Option<(String, String)> {
     let (b, class) = baseline_of(c)?;
+    // 128-bit weights beyond the 64-bit range have no 64-bit counterpart (judged by the oracle only)
+    if !in_contract(algo, &b) {
+        return None;
+    }
     let bout = canon(&run_impl(algo, &b, true));
     if bout != out && !(bout.starts_with("panic") && out.starts_with("panic")) {
         let cut = |s: &str| if s.len() > 300 { format!("{}…", &s[..300]) } else { s.to_string() };
@@ -817,6 +925,43 @@ fn run_op_w(ctx: &mut Ctx, op: &str, watchdog: bool) {
             let idx = ctx.record(op.to_string(), outs.join(" ;; "), cases.iter().any(nontrivial));
             if let Some((sig, what)) = fails.into_iter().next() {
                 ctx.fail(idx, &sig, what);
+            }
+        }
+        Some(Op::Loads(c)) if in_contract_loads(&c) => {
+            let k = 1 + c.ids.iter().copied().max().unwrap_or(0);
+            let want = loads(&c.ws, &c.ids, k);
+            let mut verdict: Option<(&'static str, String)> = None;
+            let out = match run_loads(&c) {
+                Caught::Ok(got) => {
+                    if got != want {
+                        let j = got.iter().zip(&want).position(|(a, b)| a != b).unwrap_or(got.len().min(want.len()));
+                        verdict = Some((
+                            "parts-load-wrong",
+                            format!(
+                                "compute_parts_load: {} parts returned for {}; first difference at part {}: {:?} instead of {:?}",
+                                got.len(), k, j, got.get(j), want.get(j)
+                            ),
+                        ));
+                    }
+                    format!("loads {}", got.iter().map(|x| x.to_string()).collect::<Vec<_>>().join(" "))
+                }
+                Caught::Panic(m) => {
+                    verdict = Some(("panic", format!("{} [{}]", m, panic_sig(&m))));
+                    format!("panic {}", m)
+                }
+                Caught::Hang => {
+                    verdict = Some(("hang", "no answer within 60 s".into()));
+                    "hang".into()
+                }
+            };
+            ctx.count(&format!("loads_{}", out.split(' ').next().unwrap_or("")));
+            if let Some(t) = ty_spec(&c.ty) {
+                ctx.count(&format!("loads_type_{}", t.base));
+                ctx.count(&format!("loads_variant_{}", t.variant));
+            }
+            let idx = ctx.record(op.to_string(), out, c.ws.len() >= 2 && k >= 2);
+            if let Some((sig, what)) = verdict {
+                ctx.fail(idx, sig, what);
             }
         }
         _ => {
@@ -1398,6 +1543,237 @@ fn raw_float_stream(ctx: &mut Ctx) {
     ctx.notes.push("raw-float stream: non-integer-valued f64 weights whose part loads round (1.0 and its 1-2 ulp neighbours, tenths, thirds, sevenths, magnitudes 1e-300..1e300; exhaustive over 3 weights around 1.0 x 2-part ids and over 4 weights from the tenths/thirds x 6 id vectors, plus random vectors of 3-42 weights), under the 60 s watchdog; oracle in exact arithmetic on the f64 values (terminates, ids in range, gap not larger); the model declines these (rounded part loads depend on rayon's summation order)".to_string());
 }
 
+// ------------------------------------------------------------ typed-large stream
+
+/// The weight types that are NOT eight bytes wide (1, 2, 4, 16 bytes) and the pointer-sized pair.
+const OTHER_TYPES: [&str; 11] = ["u32", "i32", "f32", "u16", "i16", "u8", "i8", "u128", "i128", "usize", "isize"];
+
+/// Largest total the protocol admits in a weight type (see [fits_type]).
+fn type_total_max(base: &str) -> i128 {
+    match base {
+        "i64" => i64::MAX as i128,
+        "u64" => u64::MAX as i128,
+        "isize" => isize::MAX as i128,
+        "usize" => usize::MAX as i128,
+        "i32" => i32::MAX as i128,
+        "u32" => u32::MAX as i128,
+        "i16" => i16::MAX as i128,
+        "u16" => u16::MAX as i128,
+        "i8" => i8::MAX as i128,
+        "u8" => u8::MAX as i128,
+        "i128" | "u128" => (1i128 << 100) - 1,
+        "f32" => (1i128 << 24) - 1,
+        _ => (1i128 << 53) - 1,
+    }
+}
+
+/// If the total exceeds `tmax`: keep the weights of a RANDOM subset of the positions (spread over
+/// the whole input) up to a budget of `tmax` (half of the time exactly `tmax`), zero elsewhere.
+fn fit_total(rng: &mut Rng, ws: &mut [i128], tmax: i128) {
+    let total: i128 = ws.iter().sum();
+    if total <= tmax {
+        return;
+    }
+    let mut order: Vec<usize> = (0..ws.len()).collect();
+    rng.shuffle(&mut order);
+    let slack = if rng.chance(1, 2) { 0 } else { rng.range(0, (tmax / 4).min(1000) as i64) as i128 };
+    let mut budget = tmax - slack;
+    let mut keep = vec![0i128; ws.len()];
+    for j in order {
+        if budget == 0 {
+            break;
+        }
+        let w = ws[j].min(budget);
+        keep[j] = w;
+        budget -= w;
+    }
+    ws.copy_from_slice(&keep);
+}
+
+/// `n` non-negative weights whose total fits the type `base`, in one of five shapes scaled to the
+/// type's range (narrow types and long inputs end up with sparse unit weights).
+fn typed_weights(rng: &mut Rng, base: &str, n: usize, shape: usize) -> Vec<i128> {
+    let tmax = type_total_max(base);
+    let per = (tmax / n.max(1) as i128).max(1);
+    let mut ws: Vec<i128> = (0..n)
+        .map(|_| match shape % 5 {
+            // dense, the total fits by construction
+            0 => rng.range(0, per.min(1000) as i64) as i128,
+            // four times that: cut down to a total of (nearly) exactly the type's maximum
+            1 => rng.range(0, (4 * per).min(1000) as i64) as i128,
+            // ties
+            2 => rng.range(1, 2) as i128,
+            // mostly zeros
+            3 => {
+                if rng.chance(1, 2) {
+                    0
+                } else {
+                    rng.range(1, 9) as i128
+                }
+            }
+            // as wide as the type allows on average (up to 2^80 in the 128-bit types)
+            _ => {
+                let hi = per.min(1i128 << 80) as u128;
+                ((((rng.next() as u128) << 64) | rng.next() as u128) % (hi + 1)) as i128
+            }
+        })
+        .collect();
+    fit_total(rng, &mut ws, tmax);
+    ws
+}
+
+/// An already balanced input: `m` weights of `c` (m a multiple of the part count, dealt round
+/// robin to the parts in input order), one of them `c - 1`, zeros elsewhere: the gap is 1 and every
+/// move of a positive weight makes it larger – both algorithms must leave the part loads alone
+/// (an implementation that starts from a wrong load table moves something and worsens the gap).
+fn balanced_case(rng: &mut Rng, ty: &str, threads: usize, n: usize, parts: usize) -> Option<Case> {
+    let tmax = type_total_max(ty);
+    let c: i128 = 2 + rng.usize(2) as i128;
+    let mut m = n.min((tmax / c).min(1 << 40) as usize);
+    if rng.chance(1, 2) {
+        m = m * 2 / 3;
+    }
+    m = m / parts * parts;
+    if m == 0 {
+        return None;
+    }
+    let mut pos: Vec<usize> = (0..n).collect();
+    rng.shuffle(&mut pos);
+    pos.truncate(m);
+    pos.sort_unstable();
+    let mut ws = vec![0i128; n];
+    let mut ids: Vec<usize> = (0..n).map(|_| rng.usize(parts)).collect();
+    for (j, &p) in pos.iter().enumerate() {
+        ws[p] = c;
+        ids[p] = j % parts;
+    }
+    ws[pos[rng.usize(m)]] -= 1;
+    Some(plain(ty, threads, ws, ids))
+}
+
+fn typed_size_class(n: usize) -> &'static str {
+    match n {
+        0..=2048 => "<=2048",
+        2049..=4096 => "2049..4096",
+        4097..=8192 => "4097..8192",
+        8193..=16384 => "8193..16384",
+        16385..=32768 => "16385..32768",
+        32769..=65536 => "32769..65536",
+        _ => "65537+",
+    }
+}
+
+/// TYPED-LARGE stream: the same algorithms (and the shared `compute_parts_load`) instantiated with
+/// every OTHER legal weight type – 1, 2, 4 and 16 bytes wide, and usize / isize – on inputs of
+/// thousands of elements (the type-plumbing part of the special stream stops at 300 elements, the
+/// large-n stream runs the three 8-byte types only).  Judged by the O(n) oracle (gap computed in
+/// i128 from the returned ids, total redistributed), compared with the run of the same data in
+/// the 64-bit type of the same class (input-type-dependent@algo: same count and ids expected,
+/// nothing overflows inside the contract) and compared exactly with the model.  `loads` ops run
+/// `compute_parts_load` alone on the same data in the three ways the algorithms hand it the weights.
+fn typed_large_stream(ctx: &mut Ctx) {
+    let quick = ctx.quick();
+    // an own generator derived from the run's: the streams after this one see the same inputs
+    // whether or not this stream is there
+    let mut rng = Rng::new(ctx.rng.0 ^ 0x7C14_7C14_7C14_7C14);
+    let pools = [1usize, 2, 3, 4, 16];
+    let shapes = [IdShape::Random, IdShape::Blocked, IdShape::Sorted];
+    let mut no = rng.usize(60);
+    let emit = |ctx: &mut Ctx, rng: &mut Rng, no: &mut usize, what: &str, ty: &str, n: usize, parts: usize| {
+        *no += 1;
+        let ws = typed_weights(rng, ty, n, *no);
+        let ids = make_ids(rng, n, parts.max(1), shapes[*no % 3]);
+        ctx.count(&format!("typed_large:type_{}", ty));
+        ctx.count(&format!("typed_large:n_{}", typed_size_class(n)));
+        ctx.count(&format!("typed_large:parts_{}", if parts <= 8 { parts.to_string() } else { "9+".into() }));
+        if ws.iter().sum::<i128>() > type_total_max(base64(ty)) {
+            ctx.count("typed_large:beyond_64_bits_no_baseline_run");
+        }
+        for (j, op) in what.split(',').enumerate() {
+            let threads = pools[(*no + 2 * j) % 5];
+            if op == "loads" {
+                let c = plain(&format!("{}@{}", ty, LOADS_VARIANTS[(*no + j) % 3]), threads, ws.clone(), ids.clone());
+                if !in_contract_loads(&c) {
+                    ctx.count("typed_large:outside_contract_not_run");
+                    continue;
+                }
+                run_op(ctx, &format_case("loads", &c));
+            } else {
+                let c = plain(ty, threads, ws.clone(), ids.clone());
+                if !in_contract(op, &c) {
+                    ctx.count("typed_large:outside_contract_not_run");
+                    continue;
+                }
+                run_op(ctx, &format_case(op, &c));
+            }
+        }
+    };
+
+    // ---- systematic: sizes x types (both algorithms and the load table on the same data);
+    //      part counts, pools, id orders and weight shapes rotate
+    let sizes: &[usize] = if quick { &[2049, 4097, 8193, 20001, 70001] } else { &[2048, 2049, 4096, 4097, 8193, 16385, 20001, 32769, 65537, 70001, 140003] };
+    let part_counts: &[usize] = if quick { &[2, 3, 5, 8] } else { &[2, 3, 4, 5, 7, 8] };
+    let mut rot = rng.usize(12);
+    for &n in sizes {
+        for ty in OTHER_TYPES {
+            let rounds = if quick { 1 } else { 3 };
+            for _ in 0..rounds {
+                rot += 1;
+                emit(ctx, &mut rng, &mut no, "best,first,loads", ty, n, part_counts[rot % part_counts.len()]);
+            }
+        }
+        // the load table in the 8-byte types as well
+        for ty in TYPES {
+            rot += 1;
+            emit(ctx, &mut rng, &mut no, "loads", ty, n, part_counts[rot % part_counts.len()]);
+        }
+    }
+    // many parts (VnFirst costs parts^2 per element of the heaviest part: moderate sizes)
+    for (j, ty) in OTHER_TYPES.iter().enumerate() {
+        let (n, parts) = [(4097usize, 64usize), (8193, 257), (20001, 65), (2049, 256)][j % 4];
+        emit(ctx, &mut rng, &mut no, "best,first,loads", ty, n, parts);
+    }
+
+    // ---- already balanced inputs (gap 1): nothing may move
+    for (j, ty) in OTHER_TYPES.iter().enumerate() {
+        let all = [2049usize, 4097, 8193, 20001, 70001];
+        let ns: Vec<usize> = if quick { vec![all[(j + rot) % 5], all[(j + rot + 2) % 5]] } else { all.to_vec() };
+        for n in ns {
+            rot += 1;
+            let parts = part_counts[rot % part_counts.len()];
+            if let Some(c) = balanced_case(&mut rng, ty, pools[rot % 5], n, parts) {
+                for algo in ALGOS {
+                    if in_contract(algo, &c) {
+                        ctx.count("typed_large:already_balanced");
+                        ctx.count(&format!("typed_large:type_{}", ty));
+                        ctx.count(&format!("typed_large:n_{}", typed_size_class(n)));
+                        run_op(ctx, &format_case(algo, &c));
+                    } else {
+                        ctx.count("typed_large:outside_contract_not_run");
+                    }
+                }
+            }
+        }
+    }
+
+    // ---- randomised: sizes at and around the multiples of the power-of-two block lengths, or
+    //      anywhere in the range; random type, part count, pool, id order, weight shape
+    for _ in 0..ctx.budget(60, 700) {
+        let n = if rng.chance(1, 2) {
+            let b = *rng.pick(&[2048usize, 4096, 8192, 16384, 32768]);
+            let k = 1 + rng.usize(if quick { 2 } else { 4 });
+            (b * k + 2).saturating_sub(rng.usize(5)).max(2049)
+        } else {
+            2049 + rng.usize(if quick { 30000 } else { 110000 })
+        };
+        let ty = *rng.pick(&OTHER_TYPES);
+        let parts = if n <= 20001 && rng.chance(1, 8) { *rng.pick(&[16usize, 64, 257]) } else { 2 + rng.usize(7) };
+        let what = *rng.pick(&["best", "first", "best,loads", "first,loads", "best,first"]);
+        emit(ctx, &mut rng, &mut no, what, ty, n, parts);
+    }
+    ctx.notes.push("typed-large stream: VnBest / VnFirst / compute_parts_load with the weight types u32 i32 f32 u16 i16 u8 i8 u128 i128 usize isize on 2049..70001 elements (thorough 2048..140003; systematic sizes x types, plus random sizes at and around multiples of 2048..32768), 2-8 / 16 / 64 / 257 parts, pools 1/2/3/4/16, random / blocked / sorted ids, five weight shapes scaled to the type's range (totals up to exactly the type's maximum; sparse unit weights in the 1- and 2-byte types) and already balanced inputs (gap 1: nothing may move); O(n) oracle in i128 + comparison with the 64-bit run of the same data + exact comparison with the model; `loads` ops check compute_parts_load alone against the naive table".to_string());
+}
+
 fn large_stream(ctx: &mut Ctx) {
     let quick = ctx.quick();
     let mut rng = ctx.rng.clone();
@@ -1568,6 +1944,7 @@ fn large_stream(ctx: &mut Ctx) {
 pub fn generate(ctx: &mut Ctx) {
     // ---- large-n / corner / reuse stream first (its cases matter most if a watchdog limit stops the run)
     large_stream(ctx);
+    typed_large_stream(ctx);
     half_range_stream(ctx);
     special_stream(ctx);
     raw_float_stream(ctx);
